@@ -34,3 +34,23 @@ Theorem C07_released_is_free : forall a s x t ports k,
   (forall e, In e (allocated a) -> fst e <> s -> ~ In x (a_ips (snd e))) ->
   check_sharing (unassign a s) t x ports k = true.
 Proof. exact released_free. Qed.
+
+(* ---- controller half: a released address triggers a full re-sync ---- *)
+From Verif Require Import Model.Ctrl Proofs.CtrlP Proofs.CtrlWorldP Proofs.CtrlThmP.
+
+Theorem C07_release_triggers_reload : forall rank c s o k oc,
+  set_balancer rank c s (Some o) k = Some oc -> c_have_pools c = true ->
+  oc_write oc <> None -> k_write k = true ->
+  (releases (c_mem c) (c_mem (oc_state oc)) s (ips_of (c_mem c) s) \/
+   releases (c_mem c) (c_mem (oc_state oc)) s (o_status o)) ->
+  oc_sync oc = ReprocessAll.
+Proof. exact release_triggers_reload. Qed.
+
+Theorem C07_delete_triggers_reload : forall rank c s k oc al,
+  set_balancer rank c s None k = Some oc -> get_alloc (c_mem c) s = Some al ->
+  oc_sync oc = ReprocessAll /\ get_alloc (c_mem (oc_state oc)) s = None.
+Proof. exact delete_triggers_reload. Qed.
+
+Theorem C07_reprocess_sets_reload : forall rank w s k w',
+  wstep_t rank w (ESvc s k) = Some (w', [ReprocessAll]) -> w_reload w' = true.
+Proof. exact reprocess_sets_reload. Qed.
